@@ -15,7 +15,7 @@ use crate::{
     sets::{registry, Direct, HxIxSet, RunArgs, SetEntry, Stash, Trace, PID, STASH, TRACE},
     sexp::Sexp,
 };
-use hx_common::{hex, unhex, Args, Recorder, Rng};
+use hx_common::{hex, json, unhex, Args, Recorder, Rng, Value};
 use hx_native::{err_class, AcctSpec, World};
 use star_frame::{prelude::*, verif_hooks::CPI_HANDLER, SolanaInstruction};
 
@@ -106,6 +106,17 @@ fn o_fixed_len(shape: &Sexp) -> Option<usize> {
         "boxed" => o_fixed_len(&a[0]),
         "struct" => a.iter().map(o_fixed_len).sum(),
         _ => None,
+    }
+}
+
+/// some single account's static meta lacks a flag its validation checks (`MaybeSigner<false, Signer<_>>` …)
+fn o_meta_misses_requirement(shape: &Sexp) -> bool {
+    let (tag, a) = sh(shape);
+    if tag == "single" {
+        let cs = a[3].as_atom().unwrap_or("");
+        (cs.contains('s') && !flag(&a[0])) || (cs.contains('w') && !flag(&a[1]))
+    } else {
+        a.iter().any(o_meta_misses_requirement)
     }
 }
 
@@ -271,6 +282,155 @@ fn fmt_args(r: &RunArgs) -> String {
     format!("{},{},{},{}", r.a, r.b, r.c as u8, hex(&r.d))
 }
 
+/// Everything one `run` observes of the real code, as plain data (it crosses a process boundary).
+struct Real {
+    direct: Direct,
+    entry_class: String,
+    tval: Option<String>,
+    trun: Option<RunArgs>,
+    cpi: Option<(String, Option<CpiOut>)>,
+}
+
+fn run_real(e: &SetEntry, specs: &[AcctSpec], n: usize, data: &[u8]) -> Real {
+    let world = World::new(specs);
+    let infos = &world.infos()[..n];
+    let direct = (e.direct)(infos, data);
+    // the program's own entry path
+    TRACE.with_borrow_mut(|t| *t = Trace::default());
+    STASH.with_borrow_mut(|s| *s = Stash { data: data.to_vec(), prog: Some(*world.info(n)), do_cpi: true });
+    CPI_HANDLER.with_borrow_mut(|h| {
+        *h = Some(Box::new(|r| {
+            TRACE.with_borrow_mut(|t| t.cpi = Some((String::new(), Some(r.clone()))));
+            Some(Ok(()))
+        }))
+    });
+    let entry = <HxIxSet as InstructionSet>::dispatch(&PID, infos, data);
+    CPI_HANDLER.with_borrow_mut(|h| *h = None);
+    let entry_class = match entry {
+        Ok(()) => "ok".to_string(),
+        Err(e) => err_class(e),
+    };
+    let trace = TRACE.with_borrow_mut(std::mem::take);
+    let cpi = trace.cpi.as_ref().map(|(c, r)| {
+        (
+            c.clone(),
+            r.as_ref().map(|r| CpiOut {
+                program_id: r.program_id,
+                data: r.data.clone(),
+                metas: r.metas.iter().map(|(k, s, w)| (name_of_key(k), *s, *w)).collect(),
+                infos: r.infos.iter().map(|i| name_of_key(&Pubkey::new_from_array(*i.key()))).collect(),
+                declared_len: r.declared_len,
+            }),
+        )
+    });
+    Real { direct, entry_class, tval: trace.val, trun: trace.run, cpi }
+}
+
+impl Real {
+    fn to_json(&self) -> Value {
+        let direct = match &self.direct {
+            Direct::DataErr => json!({"k": "data"}),
+            Direct::DecodeErr(c) => json!({"k": "decode", "c": c}),
+            Direct::Ok { rem, val, v } => json!({"k": "ok", "rem": rem, "val": val, "v": v}),
+        };
+        let cpi = self.cpi.as_ref().map(|(c, r)| {
+            json!({"c": c, "r": r.as_ref().map(|r| json!({
+                "pid": hex(r.program_id.as_ref()), "data": hex(&r.data),
+                "metas": r.metas.iter().map(|(k, s, w)| json!([k, s, w])).collect::<Vec<_>>(),
+                "infos": r.infos, "decl": r.declared_len,
+            }))})
+        });
+        json!({
+            "direct": direct, "entry": self.entry_class, "tval": self.tval,
+            "trun": self.trun.as_ref().map(|r| json!([r.a, r.b.to_string(), r.c, hex(&r.d)])),
+            "cpi": cpi,
+        })
+    }
+    fn from_json(v: &Value) -> Option<Real> {
+        let d = &v["direct"];
+        let direct = match d["k"].as_str()? {
+            "data" => Direct::DataErr,
+            "decode" => Direct::DecodeErr(d["c"].as_str()?.to_string()),
+            _ => Direct::Ok { rem: d["rem"].as_u64()? as usize, val: d["val"].as_str()?.to_string(), v: d["v"].as_str()?.to_string() },
+        };
+        let trun = match &v["trun"] {
+            Value::Null => None,
+            t => Some(RunArgs { a: t[0].as_u64()? as u8, b: t[1].as_str()?.parse().ok()?, c: t[2].as_bool()?, d: unhex(t[3].as_str()?)? }),
+        };
+        let cpi = match &v["cpi"] {
+            Value::Null => None,
+            c => Some((
+                c["c"].as_str()?.to_string(),
+                match &c["r"] {
+                    Value::Null => None,
+                    r => Some(CpiOut {
+                        program_id: Pubkey::new_from_array(unhex(r["pid"].as_str()?)?.try_into().ok()?),
+                        data: unhex(r["data"].as_str()?)?,
+                        metas: r["metas"].as_array()?.iter().map(|m| Some((m[0].as_str()?.to_string(), m[1].as_bool()?, m[2].as_bool()?))).collect::<Option<_>>()?,
+                        infos: r["infos"].as_array()?.iter().map(|i| i.as_str().map(str::to_string)).collect::<Option<_>>()?,
+                        declared_len: r["decl"].as_u64()? as usize,
+                    }),
+                },
+            )),
+        };
+        Some(Real { direct, entry_class: v["entry"].as_str()?.to_string(), tval: v["tval"].as_str().map(str::to_string), trun, cpi })
+    }
+}
+
+/// Run `f` in a forked child (10 s alarm, 4 GiB address space) and bring its JSON result back.
+fn isolated(f: impl FnOnce() -> Value) -> std::result::Result<Value, String> {
+    unsafe {
+        let mut fds = [0i32; 2];
+        if libc::pipe(fds.as_mut_ptr()) != 0 {
+            return Err("pipe failed".into());
+        }
+        let pid = libc::fork();
+        if pid < 0 {
+            return Err("fork failed".into());
+        }
+        if pid == 0 {
+            libc::close(fds[0]);
+            let lim = libc::rlimit { rlim_cur: 4 << 30, rlim_max: 4 << 30 };
+            libc::setrlimit(libc::RLIMIT_AS, &lim);
+            libc::alarm(10);
+            let out = match hx_common::catch(f) {
+                Ok(v) => v.to_string(),
+                Err(_) => "\"panic\"".to_string(),
+            };
+            let b = out.as_bytes();
+            let mut off = 0;
+            while off < b.len() {
+                let k = libc::write(fds[1], b[off..].as_ptr().cast(), b.len() - off);
+                if k <= 0 {
+                    break;
+                }
+                off += k as usize;
+            }
+            libc::_exit(0);
+        }
+        libc::close(fds[1]);
+        let mut buf = vec![];
+        let mut chunk = [0u8; 65536];
+        loop {
+            let k = libc::read(fds[0], chunk.as_mut_ptr().cast(), chunk.len());
+            if k <= 0 {
+                break;
+            }
+            buf.extend_from_slice(&chunk[..k as usize]);
+        }
+        libc::close(fds[0]);
+        let mut status = 0;
+        libc::waitpid(pid, &mut status, 0);
+        if libc::WIFEXITED(status) && libc::WEXITSTATUS(status) == 0 {
+            String::from_utf8_lossy(&buf).parse::<Value>().map_err(|_| "child result unreadable".to_string())
+        } else if libc::WIFSIGNALED(status) {
+            Err(format!("killed by signal {}", libc::WTERMSIG(status)))
+        } else {
+            Err("child exited abnormally".to_string())
+        }
+    }
+}
+
 struct CpiOut {
     program_id: Pubkey,
     data: Vec<u8>,
@@ -289,9 +449,8 @@ struct RunOut {
 
 #[derive(Default)]
 struct St<'a> {
-    table: bool,
-    #[allow(dead_code)]
-    idx: usize,
+    /// the discriminant table of the `table` line
+    listed: Option<Vec<String>>,
     entry: Option<&'a SetEntry>,
     shape: Option<Sexp>,
     client: Option<Sexp>,
@@ -330,30 +489,30 @@ fn exec_inner<'a>(rec: &mut Recorder, table: &'a [SetEntry], st: &mut St<'a>, t:
     let bad = || "bad-op".to_string();
     match t {
         ["table", discs @ ..] => {
-            if discs.len() != table.len() || discs.iter().zip(table).any(|(d, e)| *d != hex(&(e.disc)())) {
+            // any list of real instruction discriminants (so that a corpus file survives new sets)
+            if discs.iter().any(|d| !table.iter().any(|e| hex(&(e.disc)()) == *d)) {
                 return bad();
             }
-            *st = St { table: true, ..St::default() };
+            *st = St { listed: Some(discs.iter().map(|d| d.to_string()).collect()), ..St::default() };
             // oracle: the dispatch arms are pairwise distinct
-            let mut ds: Vec<&&str> = discs.iter().collect();
+            let mut ds: Vec<String> = table.iter().map(|e| hex(&(e.disc)())).collect();
             ds.sort();
             ds.dedup();
-            if ds.len() != discs.len() {
+            if ds.len() != table.len() {
                 rec.fail("duplicate_instruction_discriminants", line);
             }
             format!("ok {}", discs.len())
         }
         ["set", name, shape, idx] => {
-            if !st.table {
-                return bad();
-            }
+            let Some(listed) = st.listed.clone() else { return bad() };
             let Some(idx) = small_dec(idx, 3) else { return bad() };
-            let Some(e) = table.get(idx as usize) else { return bad() };
+            let Some(disc) = listed.get(idx as usize) else { return bad() };
+            let Some(e) = table.iter().find(|e| e.name == *name) else { return bad() };
             let real_shape = (e.shape)();
-            if e.name != *name || real_shape.to_string() != *shape {
+            if hex(&(e.disc)()) != *disc || real_shape.to_string() != *shape {
                 return bad();
             }
-            *st = St { table: true, idx: idx as usize, ..St::default() };
+            *st = St { listed: Some(listed), ..St::default() };
             let (min, len, copt) = (e.statics)();
             st.entry = Some(e);
             st.shape = Some(real_shape.clone());
@@ -472,37 +631,27 @@ fn exec_inner<'a>(rec: &mut Recorder, table: &'a [SetEntry], st: &mut St<'a>, t:
             }
             let n = specs.len();
             specs.push(AcctSpec::new(PID, System::ID));
-            let world = World::new(&specs);
-            let infos = &world.infos()[..n];
-            let direct = (e.direct)(infos, &ix.data);
-            // the program's own entry path
-            TRACE.with_borrow_mut(|t| *t = Trace::default());
-            STASH.with_borrow_mut(|s| *s = Stash { data: ix.data.clone(), prog: Some(*world.info(n)), do_cpi: true });
-            CPI_HANDLER.with_borrow_mut(|h| {
-                *h = Some(Box::new(|r| {
-                    TRACE.with_borrow_mut(|t| t.cpi = Some((String::new(), Some(r.clone()))));
-                    Some(Ok(()))
-                }))
-            });
-            let entry = <HxIxSet as InstructionSet>::dispatch(&PID, infos, &ix.data);
-            CPI_HANDLER.with_borrow_mut(|h| *h = None);
-            let entry_class = match entry {
-                Ok(()) => "ok".to_string(),
-                Err(e) => err_class(e),
+            // the real code runs in a forked child: a hang, an abort or a crash of a (mutated) decode then
+            // becomes an oracle failure with this case as its failing input instead of killing the harness
+            let real = match isolated(|| run_real(e, &specs, n, &ix.data).to_json()) {
+                Ok(v) if v.as_str() == Some("panic") => {
+                    rec.fail("run_panics", &rec.current_case_text());
+                    st.run = Some(RunOut { reached_process: false, cpi: None });
+                    return "panic".into();
+                }
+                Ok(v) => Real::from_json(&v).expect("child result parses"),
+                Err(how) => {
+                    rec.fail("run_crashes_or_hangs", &format!("{how}: set {} client {client}", e.name));
+                    st.run = Some(RunOut { reached_process: false, cpi: None });
+                    return "crash".into();
+                }
             };
-            let trace = TRACE.with_borrow_mut(std::mem::take);
-            let cpi_out = trace.cpi.as_ref().map(|(c, r)| {
-                (
-                    c.clone(),
-                    r.as_ref().map(|r| CpiOut {
-                        program_id: r.program_id,
-                        data: r.data.clone(),
-                        metas: r.metas.iter().map(|(k, s, w)| (name_of_key(k), *s, *w)).collect(),
-                        infos: r.infos.iter().map(|i| name_of_key(&Pubkey::new_from_array(*i.key()))).collect(),
-                        declared_len: r.declared_len,
-                    }),
-                )
-            });
+            let Real { direct, entry_class, tval, trun, cpi: cpi_out } = real;
+            struct Tr {
+                val: Option<String>,
+                run: Option<RunArgs>,
+            }
+            let trace = Tr { val: tval, run: trun };
             let tampered = st.drops.iter().any(|d| !st.grants.contains(d));
             let ambiguous = o_ambiguous(&shape, &client);
             let arg_fits = o_arg_of(&shape, &client).as_ref() == Some(&darg);
@@ -538,7 +687,12 @@ fn exec_inner<'a>(rec: &mut Recorder, table: &'a [SetEntry], st: &mut St<'a>, t:
                         }
                         let should_pass = !tampered && !o_wrong_fixed(&shape, &client);
                         if should_pass && vc != "ok" {
-                            rec.fail("client_flags_insufficient_for_validation", &format!("client {client} -> {v}"));
+                            let class = if o_meta_misses_requirement(&shape) {
+                                "single_set_meta_override_drops_inner_requirement"
+                            } else {
+                                "client_flags_insufficient_for_validation"
+                            };
+                            rec.fail(class, &format!("set {} client {client} -> validation {v}", e.name));
                         }
                         if !should_pass && vc == "ok" {
                             rec.fail("validation_accepts_missing_flag_or_wrong_address", &format!("client {client} drops {:?}", st.drops));
@@ -635,7 +789,7 @@ impl Gen<'_> {
         match tag {
             "single" => {
                 let fixed = a[2].as_atom().unwrap();
-                let bare = !flag(&a[0]) && !flag(&a[1]);
+                let bare = !flag(&a[0]) && !flag(&a[1]) && a[3].as_atom() == Some("-");
                 let k = if fixed != "-" {
                     if self.rng.below(100) < self.special {
                         self.fresh() // wrong address
@@ -683,7 +837,7 @@ fn enumerate(shape: &Sexp, len: usize, ctr: &mut u64, cap: usize) -> Vec<Sexp> {
             "single" => {
                 let fixed = a[2].as_atom().unwrap();
                 let k = if fixed != "-" {
-                    if !flag(&a[0]) && !flag(&a[1]) { "-".to_string() } else { fixed.to_string() }
+                    if !flag(&a[0]) && !flag(&a[1]) && a[3].as_atom() == Some("-") { "-".to_string() } else { fixed.to_string() }
                 } else {
                     *ctr += 1;
                     format!("k{ctr}")
@@ -750,6 +904,11 @@ fn emit_group<'a>(rec: &mut Recorder, table: &'a [SetEntry], st: &mut St<'a>, rn
         if !cands.is_empty() {
             let (i, f) = *rng.pick(&cands);
             exec(rec, table, st, &format!("drop {i} {f}"));
+            if rng.chance(1, 3) {
+                // a second missing flag, possibly of the same account (the first failing check decides)
+                let (i, f) = *rng.pick(&cands);
+                exec(rec, table, st, &format!("drop {i} {f}"));
+            }
             tampered = true;
         }
     }
@@ -815,6 +974,7 @@ fn bump_len(a: &Sexp, rng: &mut Rng) -> Sexp {
 }
 
 pub fn run(args: &Args) {
+    let _ = name_of_key(&PID); // build the name table before any fork
     let table = registry();
     let mut rec = Recorder::new(
         "one case per (derived account set, batch): every present/absent combination of its optional accounts at vec/rest lengths 0..2 \
